@@ -159,7 +159,7 @@ impl Prop for C19 {
         "generated: application over a lattice network (ids, grid, or grid + vertex matching + balancer so that input-plugin errors occur) x batch of 1-60 queries (successes, search errors, input-plugin errors, grid siblings) x parallelism 1-16 x both persistence policies x flush rate {absent, 1, 7, 1000} x format {JSON lines, CSV with 1-5 columns over paths / sums / optionals incl. failing paths, sorted or not} x 1-3 consecutive runs appending to the same file x records padded to 0 B - 200 KiB by a harness output plugin x per-query delays. Oracle: the file after run() has exactly one parseable line per response whose multiset equals the produced responses (run-alone reference for the discard policy), concatenated across runs; CSV: one header (first line only), rows follow the header's column order with cells = reference evaluation of the mapping; the responses handed back keep everything they had without a sink. non-trivial = parallelism >= 4, >= 8 responses, a record > 64 KiB, a search error and an input-plugin error".to_string()
     }
     fn cases(&self, tier: Tier) -> u32 {
-        tier.pick(3_000, 60_000)
+        tier.pick(6_000, 80_000)
     }
     fn assumptions(&self) -> Vec<String> {
         vec![
